@@ -119,6 +119,7 @@ func verifC15Serve(req verifC15Req) (resp verifC15Resp) {
 			SizeMax:      req.SizeMax,
 			LargeFiles:   req.LargeFiles,
 			DisableCTags: true,
+			ShardMax:     1 << 20, // small trees: keeps the builder's size-dependent allocations small
 		}
 		opts.RepositoryDescription = zoekt.Repository{Name: req.Name, Source: req.Dir}
 		for _, b := range req.Branches {
